@@ -86,6 +86,8 @@ def _peptide_case(draw):
     return {"mode": "peptide", "chains": chains, "seed": draw(st.integers(0, 2 ** 32 - 1)), "nf": draw(st.integers(1, 2)),
             # optional unit cell (atoms scattered over ~1 nm in a 2.5 - 3 nm cell: most legs need the minimum image) and the flags the
             # named functions are called with (None = defaults)
+            # an atom renamed in place between two calls on the same Topology object (index of the residue, or None)
+            "rename_between": draw(st.one_of(st.none(), st.none(), st.integers(0, 30))),
             "pcell": draw(st.sampled_from([None, "ortho", "tric"])),
             "pflags": draw(st.sampled_from([None, None, [True, True], [True, False], [False, True], [False, False]]))}
 
@@ -273,6 +275,19 @@ def _run_peptide(case):
     fkw = {} if not case.get("pflags") else {"periodic": case["pflags"][0], "opt": case["pflags"][1]}
     if fkw:
         labels.append("peptide-flags:%s" % case["pflags"])
+
+    if case.get("rename_between") is not None:
+        with warnings.catch_warnings():
+            warnings.simplefilter("ignore")
+            for nm_ in ("phi", "psi", "omega", "chi1", "chi2"):
+                getattr(md, "compute_" + nm_)(traj)              # whatever this computes or remembers ...
+        flat = [(r_, d_) for cl_ in layout for r_, d_ in cl_]
+        r_, d_ = flat[case["rename_between"] % len(flat)]
+        old_ = next((nm_ for nm_ in ("N", "CD", "CG", "C", "CA") if nm_ in d_), None)
+        if old_ is not None:
+            top.atom(d_[old_]).name = old_ + "X"                   # ... the atom is then renamed on the very same object
+            d_[old_ + "X"] = d_.pop(old_)
+            labels.append("renamed-between-calls")
 
     def expected(pattern, offsets):
         out = []
